@@ -15,7 +15,8 @@
 (***************************************************************************)
 EXTENDS CookAnalysis, Json
 
-CONSTANTS Defects,     \* TRUE: the C07 defect actions are enabled (at most one defect per document)
+CONSTANTS Syntax,      \* extensions whose SYNTAX may be written (= Ext normally; C02 writes syntax the parser has off)
+          Defects,     \* TRUE: the C07 defect actions are enabled (at most one defect per document)
           Mode,        \* "bfs": every choice enumerated (small pools, canonical spelling); "sim": random choice
           Kernel,      \* which pools / actions are enabled: "ref" | "struct" | "switch" | "full"
           MaxBlocks, MaxItems, MaxComps
@@ -25,7 +26,8 @@ VARIABLES text,        \* sequence of chunks: the source written so far
           w            \* writer state
 docvars == <<text, a, w>>
 
-Has(e) == e \in Ext
+Has(e) == e \in Ext        \* the parser has the extension on: decides how a spelling READS
+Syn(e) == e \in Syntax     \* the writer may use the extension's syntax: decides what is WRITTEN
 \* random choice in simulation mode; the argument is made state dependent so that TLC does not cache the draw
 R(S) == RandomElement(IF Len(text) >= 0 THEN S ELSE {})
 Pick(S) == IF Mode = "sim" THEN {R(S)} ELSE S
@@ -52,11 +54,11 @@ Frac(wh, n, d) == [t |-> "frac", w |-> wh, n |-> n, d |-> d]
 Rng(x, y) == [t |-> "range", a |-> x, b |-> y]
 Txt(s) == [t |-> "text", s |-> s]
 Values == CASE Kernel \in {"ref", "cw", "struct", "switch", "defect"} -> {Num("2")}
-            [] OTHER -> {Num("2"), Num("1.5"), Num("250"), Frac(0, 1, 2), Frac(1, 3, 4), Txt("some"), Txt("a pinch"),
+            [] OTHER -> {Num("2"), Num("1.5"), Num("250"), Frac(0, 1, 2), Frac(1, 3, 4), Txt("some"), Txt("a pinch"), Txt("2 large"),
                          Rng(Num("2"), Num("3")), Rng(Num("1.5"), Frac(0, 7, 2))}
 Units == IF Kernel = "full" THEN {"", "", "g", "kg", "ml", "cups", "tsp", "bag", "min"} ELSE {""}
 TimeUnits == {"min", "h", "minutes", "s"}
-Aliases == IF Has("ALIAS") /\ Kernel = "full" THEN {"", "", "oil"} ELSE {""}
+Aliases == IF Syn("ALIAS") /\ Kernel = "full" THEN {"", "", "oil"} ELSE {""}
 Notes == IF Kernel = "full" THEN {"", "", "finely chopped"} ELSE {""}
 Words == IF Kernel = "full" THEN {"Mix", "the", "and", "well", "crE2me", "a\\@b", "50%", "E4"} ELSE {"mix"}
 WordChunks(x) == CASE x = "crE2me" -> <<"cr", "E2", "me">> [] x = "a\\@b" -> <<"a", "BS", "@b">> [] OTHER -> <<x>>
@@ -89,15 +91,30 @@ ValChunks(v, sp) == CASE v.t \in {"num", "frac"} -> NumChunksSp(v, sp)
 RECURSIVE Flat(_, _)
 Flat(cs, i) == IF i > Len(cs) THEN "" ELSE cs[i] \o Flat(cs, i + 1)
 ReadVal(v) == IF v.t = "range" /\ ~Has("RANGE") THEN Txt(Flat(ValChunks(v, Canon), 1)) ELSE v
-CanAdv(q) == Has("ADVANCED_UNITS") /\ q.v.t # "text" /\ q.unit # ""
+CanAdv(q) == Syn("ADVANCED_UNITS") /\ q.v.t # "text" /\ q.unit # "" /\ (Has("ADVANCED_UNITS") \/ ~q.lock)
 \* quantity between braces
+AdvUsed(q, sp) == q # NoQ /\ sp.adv /\ CanAdv(q)
 QtyChunks(q, sp0) ==
-  LET sp == IF q.v.t = "range" /\ ~Has("RANGE") THEN [sp0 EXCEPT !.rs = "", !.fs = ""] ELSE sp0 IN
+  LET sp == IF (q.v.t = "range" /\ ~Has("RANGE")) \/ (AdvUsed(q, sp0) /\ ~Has("ADVANCED_UNITS")) THEN [sp0 EXCEPT !.rs = "", !.fs = ""] ELSE sp0 IN
      <<sp.pad>> \o (IF q.lock THEN <<"=", sp.ws>> ELSE <<>>) \o ValChunks(q.v, sp)
   \o (IF q.unit = "" THEN <<>> ELSE IF sp.adv /\ CanAdv(q) THEN <<" ", q.unit>> ELSE <<sp.ws, "%", sp.ws, q.unit>>)
   \o <<sp.pad>>
 \* how the quantity reads: a unit after a blank instead of `%` is part of a text value unless ADVANCED_UNITS
 ReadQty(q) == IF q = NoQ THEN NoQ ELSE [v |-> ReadVal(q.v), unit |-> q.unit, lock |-> q.lock]
+\* a text value that starts with a number and has no `%` unit is "number unit" for ADVANCED_UNITS
+NumberLed(q) == q # NoQ /\ q.v = Txt("2 large") /\ q.unit = "" /\ ~q.lock
+ReadQtySp(q, sp) == IF NumberLed(q) /\ Has("ADVANCED_UNITS") THEN [v |-> Num("2"), unit |-> "large", lock |-> FALSE]
+                    ELSE IF AdvUsed(q, sp) /\ ~Has("ADVANCED_UNITS")
+                    THEN [v |-> Txt(Flat(ValChunks(q.v, Canon), 1) \o " " \o q.unit), unit |-> "", lock |-> q.lock]
+                    ELSE ReadQty(q)
+\* without ALIAS the `|` and what follows stay in the name
+ReadName(c) == IF c.alias # "" /\ ~Has("ALIAS") THEN [c EXCEPT !.name = c.name \o "|" \o c.alias, !.alias = ""] ELSE c
+UsesOfComp(kind, c, sp) == (IF c.alias # "" THEN {"ALIAS"} ELSE {}) \cup (IF c.mods # {} THEN {"MODIFIERS"} ELSE {})
+                           \cup (IF c.inter # NoInter THEN {"INTERMEDIATE"} ELSE {})
+                           \cup (IF c.q # NoQ /\ c.q.v.t = "range" THEN {"RANGE"} ELSE {})
+                           \cup (IF AdvUsed(c.q, sp) \/ NumberLed(c.q) THEN {"ADVANCED_UNITS"} ELSE {})
+                           \cup (IF kind = "tm" /\ c.q = NoQ THEN {"TIMER_REQ"} ELSE {})
+                           \cup (IF kind = "tm" THEN {"TIMER"} ELSE {})
 
 InterChunks(it) == IF it = NoInter THEN <<>>
                    ELSE <<"(">> \o (IF it.kind = "section" THEN <<"=">> ELSE <<>>) \o (IF it.mode = "relative" THEN <<"~">> ELSE <<>>)
@@ -141,7 +158,7 @@ AddMeta == /\ Top /\ a.oldStyle /\ Kernel = "full"
 ModeValues == {[k |-> "[mode]", v |-> "all"], [k |-> "[mode]", v |-> "components"], [k |-> "[mode]", v |-> "steps"],
                [k |-> "[define]", v |-> "ingredients"], [k |-> "[duplicate]", v |-> "ref"], [k |-> "[duplicate]", v |-> "new"],
                [k |-> "[duplicate]", v |-> "reference"], [k |-> "[mode]", v |-> "default"]}
-ModeSwitch == /\ Top /\ Has("MODES") /\ Kernel \in {"full", "switch", "ref", "cw", "defect"}
+ModeSwitch == /\ Top /\ Syn("MODES") /\ (Has("MODES") \/ a.oldStyle) /\ Kernel \in {"full", "switch", "ref", "cw", "defect"}
               /\ (Kernel \in {"ref", "cw"} => w.nb = 0)
               /\ \E m \in Pick(IF Kernel = "defect" THEN {[k |-> "[mode]", v |-> "all"], [k |-> "[mode]", v |-> "components"]}
                                ELSE ModeValues \cup (IF Kernel = "full" THEN {[k |-> "[mode]", v |-> "text"]} ELSE {})), sp \in SpSet :
@@ -187,7 +204,7 @@ AddWord == /\ InStep /\ Kernel \in {"full", "struct", "defect"}
 AddInline == /\ InStep /\ Kernel = "full" /\ w.last # "inline"
              /\ \E q \in Pick(Inlines), sp \in SpSet :
                   /\ text' = text \o ItemSep(sp) \o <<q.n, " ", IF q.u = "C" THEN "DEG" ELSE "", q.u>>
-                  /\ w' = [w EXCEPT !.ni = @ + 1, !.last = "inline", !.uses = @ \cup {"INLINE"},
+                  /\ w' = [w EXCEPT !.ni = @ + 1, !.last = "inline", !.uses = @ \cup (IF UnitKindBundled(IF q.u = "C" THEN "DEGC" ELSE q.u) # "unknown" THEN {"INLINE"} ELSE {}),
                                     !.run = @ \o SepPiece \o <<[t |-> "q", n |-> q.n, u |-> IF q.u = "C" THEN "DEGC" ELSE q.u,
                                                                 raw |-> q.n \o " " \o (IF q.u = "C" THEN "DEGC" ELSE q.u)]>>]
              /\ UNCHANGED a
@@ -206,17 +223,26 @@ PickQty == IF Mode = "sim"
            ELSE Quantities
 WriteComp(kind, c, sp) ==
   LET chunks == CompChunks(kind, c, sp)
-      readc  == [c EXCEPT !.q = ReadQty(c.q)]
+      readc  == ReadName([c EXCEPT !.q = IF c.q = NoQ THEN NoQ ELSE ReadQtySp(c.q, sp)])
   IN /\ text' = text \o ItemSep(sp) \o chunks
      /\ a' = AComponent(Flush(a, w.ni > 0), kind, readc, Flat(chunks, 1))
-     /\ w' = [w EXCEPT !.ni = @ + 1, !.nc = @ + 1, !.run = <<>>, !.last = "comp"]
+     /\ w' = [w EXCEPT !.ni = @ + 1, !.nc = @ + 1, !.run = <<>>, !.last = "comp", !.uses = @ \cup UsesOfComp(kind, c, sp)]
 AddIngredient == /\ InStep /\ w.nc < MaxComps /\ Kernel # "cw"
                  /\ \E n \in Pick(Names), ms \in Pick(ModSets), al \in Pick(Aliases), q \in PickQty, nt \in Pick(Notes), sp \in SpSet :
                       WriteComp("igr", [name |-> n, alias |-> al, mods |-> ms, inter |-> NoInter, q |-> q, note |-> nt], sp)
-AddInterRef == /\ InStep /\ w.nc < MaxComps /\ Has("INTERMEDIATE") /\ Kernel \in {"full", "struct"}
-               /\ \E n \in Pick(IF Kernel = "full" THEN {"a", "b"} ELSE {"x"}), it \in Pick(Inters),
+AddInterRef == /\ InStep /\ w.nc < MaxComps /\ Syn("INTERMEDIATE") /\ Has("MODIFIERS") /\ Kernel \in {"full", "struct"}
+               /\ \E n \in Pick(IF Kernel = "full" THEN {"a", "b"} ELSE {"x"}),
+                     \* (read without the extension, a `~` inside the parenthesis is a timer marker: only the documented-free forms)
+                     it \in Pick(IF Has("INTERMEDIATE") THEN Inters ELSE {i \in Inters : i.mode = "number"}),
                      ms \in Pick(IF Kernel = "full" THEN {{"ref"}, {"ref"}, {"ref", "opt"}} ELSE {{"ref"}}), sp \in SpSet :
-                    WriteComp("igr", [name |-> n, alias |-> "", mods |-> ms, inter |-> it, q |-> NoQ, note |-> ""], [sp EXCEPT !.braces = TRUE])
+                    IF Has("INTERMEDIATE")
+                    THEN WriteComp("igr", [name |-> n, alias |-> "", mods |-> ms, inter |-> it, q |-> NoQ, note |-> ""], [sp EXCEPT !.braces = TRUE])
+                    ELSE \* without the extension the parenthesis is part of the name of an ordinary reference
+                         LET c == [name |-> n, alias |-> "", mods |-> ms, inter |-> it, q |-> NoQ, note |-> ""]
+                             chunks == CompChunks("igr", c, [sp EXCEPT !.braces = TRUE])
+                         IN /\ text' = text \o ItemSep(sp) \o chunks
+                            /\ a' = AComponent(Flush(a, w.ni > 0), "igr", [c EXCEPT !.name = Flat(InterChunks(it), 1) \o n, !.inter = NoInter], Flat(chunks, 1))
+                            /\ w' = [w EXCEPT !.ni = @ + 1, !.nc = @ + 1, !.run = <<>>, !.last = "comp", !.uses = @ \cup {"INTERMEDIATE", "MODIFIERS"}]
 CwQuantities == {NoQ, [v |-> Num("2"), unit |-> "", lock |-> FALSE], [v |-> Txt("some"), unit |-> "", lock |-> FALSE]}
 AddCookware == /\ InStep /\ w.nc < MaxComps /\ Kernel \in {"full", "cw", "defect"}
                /\ \E n \in Pick(CASE Kernel = "full" -> {"pan", "Pan", "frying pan"} [] Kernel = "defect" -> {"p"} [] OTHER -> {"a", "A", "b"}), ms \in Pick(ModSets \ {{"recipe"}}),
@@ -225,8 +251,10 @@ AddCookware == /\ InStep /\ w.nc < MaxComps /\ Kernel \in {"full", "cw", "defect
 AddTimer == /\ InStep /\ w.nc < MaxComps /\ Kernel = "full"
             /\ \E n \in Pick({"", "rest"}), v \in Pick({Num("5"), Num("1.5"), Frac(0, 1, 2)}), u \in Pick(TimeUnits), noq \in Pick({FALSE, FALSE, TRUE}), sp \in SpSet :
                  /\ (noq => n # "" /\ ~Has("TIMER_REQ"))
+                 \* (a timer whose unit is not recognised as a unit is an error, so the advanced form only where it is read)
                  /\ WriteComp("tm", [name |-> n, alias |-> "", mods |-> {}, inter |-> NoInter,
-                                     q |-> IF noq THEN NoQ ELSE [v |-> v, unit |-> u, lock |-> FALSE], note |-> ""], sp)
+                                     q |-> IF noq THEN NoQ ELSE [v |-> v, unit |-> u, lock |-> FALSE], note |-> ""],
+                              IF Has("ADVANCED_UNITS") THEN sp ELSE [sp EXCEPT !.adv = FALSE])
 (* ---- C07: one cataloged invalid construct somewhere in an otherwise generated document -------------------- *)
 \* parse-stage defects: [chunks, class, sev, needs]; the parser reports them and no recipe comes out
 ParseDefects ==
@@ -346,8 +374,8 @@ Done == w.phase = "done"
 DiagClasses == [i \in DOMAIN a.diags |-> a.diags[i]]
 OnlyDeprecation == \A i \in DOMAIN a.diags : a.diags[i].class = "DeprecatedMetadata"
 Prediction == [model |-> ModelOf(a), valid |-> Valid(a), diags |-> a.diags, wellformed |-> (OnlyDeprecation /\ ~a.failed /\ w.defect = NoDefect), failed |-> a.failed]
-Emit == Done => PrintT(<<"REPLAY", IF w.defect = NoDefect THEN ToJson([text |-> text, ext |-> Ext, conv |-> Conv, pred |-> Prediction])
-                                   ELSE ToJson([text |-> text, ext |-> Ext, conv |-> Conv, pred |-> Prediction, defect |-> w.defect])>>)
+Emit == Done => PrintT(<<"REPLAY", IF w.defect = NoDefect THEN ToJson([text |-> text, ext |-> Ext, conv |-> Conv, pred |-> Prediction, uses |-> w.uses])
+                                   ELSE ToJson([text |-> text, ext |-> Ext, conv |-> Conv, pred |-> Prediction, uses |-> w.uses, defect |-> w.defect])>>)
 
 (* ---- C06 / C07 at model level: invariants of every reachable analysis state ------------------------------ *)
 InvConsistent == (Done /\ ~a.failed) => Consistent(ModelOf(a))       \* a parse error returns no recipe at all
